@@ -1128,6 +1128,126 @@ pub fn backref_heavy(rng: &mut Rng, shift: u32) -> Vec<u8> {
     b
 }
 
+/// A valid 4096x4096 stream whose predictor sub-image (1024x1024) is `526000 + shift` one-bit literals followed by
+/// back-references of the greatest cost the format allows: a length symbol (278/279) whose green code is `gdepth`
+/// bits deep, 10 length extra bits, the distance symbol 38 at depth `ddepth` of the distance code and its 18 extra
+/// bits (a distance of at least 524169 pixels, hence the long run of literals first): gdepth + 10 + ddepth + 18 bits
+/// per back-reference, up to 58.  A few one-bit literals between the back-references move the bit alignment of
+/// each one relative to the buffer refills.
+pub fn backref_max(rng: &mut Rng, shift: u32, gdepth: u8, ddepth: u8) -> Vec<u8> {
+    let (w, h) = (4096u32, 4096u32);
+    let mut viol = Violations::default();
+    let mut bw = BitWriter::new();
+    bw.bits(0x2f, 8);
+    bw.bits(w - 1, 14);
+    bw.bits(h - 1, 14);
+    bw.bit(false);
+    bw.bits(0, 3);
+    bw.bit(true); // transform present
+    bw.bits(0, 2); // predictor
+    bw.bits(0, 3); // block size 4 -> 1024 x 1024 sub-image
+    bw.bit(false); // no colour cache in the sub-image
+    // ladder codes: lengths 1, 2, .., d-1, d, d (Kraft sum 1); the two deepest symbols are the ones used
+    let ladder = |n: usize, d: u8, deep: [usize; 2]| -> Vec<u8> {
+        let mut lens = vec![0u8; n];
+        lens[0] = 1.min(d);
+        for l in 2..d {
+            lens[l as usize - 1] = l;
+        }
+        lens[deep[0]] = d;
+        lens[deep[1]] = d;
+        if d == 1 {
+            lens[0] = 0;
+            lens[deep[0]] = 1;
+            lens[deep[1]] = 1;
+        }
+        lens
+    };
+    let gd = gdepth.max(2);
+    let g = CodeSpec::Normal(ladder(280, gd, [256 + 22, 256 + 23]), false);
+    let genc = Enc::of(&g);
+    write_code(&mut bw, rng, &g, 280, &mut viol, None);
+    for _ in 0..3 {
+        write_code(&mut bw, rng, &CodeSpec::Simple1(0, false), 256, &mut viol, None);
+    }
+    let dd = ddepth.max(1);
+    let d = CodeSpec::Normal(ladder(40, dd, [38, 39]), false);
+    let denc = Enc::of(&d);
+    write_code(&mut bw, rng, &d, 40, &mut viol, None);
+    let total = 1024u32 * 1024;
+    let nlit = 526000 + shift;
+    for _ in 0..nlit {
+        genc.put(&mut bw, 0);
+    }
+    let mut idx = nlit;
+    while idx < total {
+        let rest = total - idx;
+        if rest < 2049 + 8 {
+            genc.put(&mut bw, 0);
+            idx += 1;
+            continue;
+        }
+        for _ in 0..rng.below(8) {
+            genc.put(&mut bw, 0);
+            idx += 1;
+        }
+        let rest = total - idx;
+        let len = (2049 + rng.below(2048) as u32).min(rest);
+        let (sym, extra) = if len >= 3073 { (256 + 23, len - 3073) } else { (256 + 22, len - 2049) };
+        genc.put(&mut bw, sym as u16);
+        bw.bits(extra, 10);
+        // distance symbol 38: dist_code = 2 * 2^18 + extra + 1, pixel distance = dist_code - 120 <= 526000
+        denc.put(&mut bw, 38);
+        bw.bits(rng.below(1800) as u32, 18);
+        idx += len;
+    }
+    bw.bit(false); // no further transform
+    bw.bit(false); // no colour cache
+    bw.bit(false); // no meta prefix image
+    for a in [280usize, 256, 256, 256, 40] {
+        write_code(&mut bw, rng, &CodeSpec::Simple1(0, false), a, &mut viol, None);
+    }
+    let mut b = bw.bytes;
+    b.extend_from_slice(&[0; 3]);
+    b
+}
+
+/// A headerless lossless stream (what an ALPH chunk or, after the 5 header bytes, a VP8L chunk carries) whose
+/// predictor sub-image (block size 4) costs NO bits per pixel through the green code: `green` = 0: the single green
+/// symbol is the first colour-cache entry (cache of 2), 1: a literal, 2: the length symbol 256 (a back-reference of
+/// length 1, refused at pixel 0).  `two` names the code that has two symbols instead of one (0 none, 1 red, 2 blue,
+/// 3 alpha, 4 distance).  On declared dimensions of millions of pixels the validator has to return without walking
+/// the pixels one by one unless each pixel costs input.
+pub fn zero_bit_subimage(rng: &mut Rng, green: u32, two: u32) -> Vec<u8> {
+    let mut viol = Violations::default();
+    let mut bw = BitWriter::new();
+    bw.bit(true); // transform present
+    bw.bits(0, 2); // predictor
+    bw.bits(0, 3); // block size 4
+    let cache = green == 0;
+    bw.bit(cache);
+    if cache {
+        bw.bits(1, 4);
+    }
+    let alphabet = 280 + if cache { 2 } else { 0 };
+    let mut glens = vec![0u8; alphabet];
+    glens[match green { 0 => 280, 1 => 0, _ => 256 }] = 1;
+    write_code(&mut bw, rng, &CodeSpec::Normal(glens, green != 1), alphabet, &mut viol, None);
+    for (k, a) in [(1u32, 256usize), (2, 256), (3, 256), (4, 40)] {
+        let spec = if two == k { CodeSpec::Simple2(0, 1, false) } else { CodeSpec::Simple1(0, false) };
+        write_code(&mut bw, rng, &spec, a, &mut viol, None);
+    }
+    bw.bit(false); // no further transform
+    bw.bit(false); // no colour cache
+    bw.bit(false); // no meta prefix image
+    for a in [280usize, 256, 256, 256, 40] {
+        write_code(&mut bw, rng, &CodeSpec::Simple1(0, false), a, &mut viol, None);
+    }
+    let mut b = bw.bytes;
+    b.extend_from_slice(&[0; 16]);
+    b
+}
+
 /// A valid 256x256 stream whose predictor sub-image (64x64) consists of literal pixels that each cost 1 + 15 + 15 + 15
 /// bits (two-symbol green code, red/blue/alpha codes of depth 15, always the deepest symbol): the longest literal
 /// the sub-image loop can meet.  `shift` leading cheap pixels move the bit alignment.
